@@ -6,6 +6,7 @@ mod props;
 mod spec;
 mod suites;
 mod suites2;
+mod suites3;
 mod gen;
 mod implside;
 mod sx;
